@@ -380,9 +380,10 @@ def observe(doc, normalized):
 
 # ---------------------------------------------------------------------------------------------
 def has_unsat_leaf(doc):
-    """The normal form of the schema has an array alternative without minItems whose items cannot be satisfied by the
-    generator: every alternative of the items schema has an empty type list or an empty enum, or is again such an array
-    (arrays are generated with one item when minItems is absent).  The empty array is then the only instance there."""
+    """The normal form of the schema has an array alternative whose elements cannot be satisfied by the generator: a prefix
+    entry, or (without minItems) the items schema, has only alternatives with an empty type list or an empty enum, or that
+    are again such arrays (every prefix entry is generated, and one element for 'items' when minItems is absent).
+    A shorter array is then the only instance there."""
     try:
         nf = normalize(copy.deepcopy(doc))
     except Exception:  # noqa
@@ -392,8 +393,15 @@ def has_unsat_leaf(doc):
         t = a.get("type")
         return t if isinstance(t, list) else [t] if isinstance(t, str) else None
 
-    def stuck_array(a):
-        return types(a) == ["array"] and isinstance(a.get("items"), dict) and a.get("minItems", 1) >= 1 and unsat(a["items"])
+    def stuck_array(a, top=False):
+        # every prefix entry is generated, and one element for 'items' when minItems is absent (or >= 1)
+        if types(a) != ["array"]:
+            return False
+        if any(unsat(x) for x in (a.get("prefixItems") or []) if isinstance(a.get("prefixItems"), list)):
+            return True
+        if top and "minItems" in a:
+            return False
+        return isinstance(a.get("items"), dict) and a.get("minItems", 1) >= 1 and unsat(a["items"])
 
     def unsat(s):
         if s is False:
@@ -401,7 +409,7 @@ def has_unsat_leaf(doc):
         if not isinstance(s, dict) or not isinstance(s.get("anyOf"), list):
             return False
         return all(isinstance(a, dict) and "$ref" not in a and (types(a) == [] or a.get("enum") == [] or stuck_array(a)) for a in s["anyOf"])
-    return any("minItems" not in a and stuck_array(a) for a in conjuncts(nf))
+    return any(stuck_array(a, top=True) for a in conjuncts(nf))
 
 
 def oracle_c01(doc):
@@ -438,12 +446,14 @@ def oracle_c01(doc):
             # an array whose items cannot be satisfied (false, empty enum) has the empty array as its only instance, and
             # arrays are generated with one item when minItems is absent
             import c11
-            try:
-                g2, pairs2, err2 = generate(c11.with_empty_arrays(doc))
-                if g2 is not None and not err2 and any(e.is_valid for e, _ in pairs2):
-                    sig += ":unsatisfiable-items-generated-non-empty"
-            except Exception:  # noqa
-                pass
+            for variant in (c11.with_empty_arrays(doc), c11.with_empty_arrays(c11.without_prefix_items(doc))):
+                try:
+                    g2, pairs2, err2 = generate(variant)
+                    if g2 is not None and not err2 and any(e.is_valid for e, _ in pairs2):
+                        sig += ":unsatisfiable-items-generated-non-empty"
+                        break
+                except Exception:  # noqa
+                    pass
         res.append((sig, "no sample is labelled valid although the schema is satisfiable (the generated %s is accepted)" % json.dumps(ok), ok))
     return res
 
@@ -523,11 +533,24 @@ def oracle_c12(doc):
                 nf = normalize(copy.deepcopy(doc))
                 if any(alt.get("type") == [] for alt in conjuncts(nf)):
                     why = ":empty-type-intersection"
-                elif kind == "type" and len(path) == 1:
-                    # (only for the schema's own top-level 'type': there the default samples are the whole instances)
+                elif kind == "type":
+                    # The counter-examples for forbidden types are the fixed default samples, placed where the 'type' keyword
+                    # stands.  Judged on the sub-schema that carries the keyword (with the document's $defs): if every default
+                    # sample that the relaxed sub-schema would newly admit is rejected by another keyword of that sub-schema,
+                    # this is the listed finding; any other unfenced type is reported.
                     defaults = ["string", 42, None, True, False, {}, []]
-                    if not any(v2.is_valid(x) and not v.is_valid(x) for x in defaults):
-                        why = ":default-samples-of-the-freed-types-violate-another-constraint"
+                    sub = doc
+                    for k in path[:-1]:
+                        sub = sub[k]
+                    if '"$ref": "#"' not in json.dumps(sub):
+                        a = dict(sub)
+                        b = {k: x for k, x in sub.items() if k != "type"}
+                        if len(path) > 1 and isinstance(doc.get("$defs"), dict):
+                            a.setdefault("$defs", doc["$defs"])
+                            b.setdefault("$defs", doc["$defs"])
+                        va, vb = jsonschema.Draft202012Validator(a), jsonschema.Draft202012Validator(b)
+                        if not any(vb.is_valid(x) and not va.is_valid(x) for x in defaults):
+                            why = ":default-samples-of-the-freed-types-violate-another-constraint"
                 elif not any(e.is_valid for e, _ in pairs):
                     why = ":no-valid-sample"
             except Exception:  # noqa
